@@ -130,8 +130,10 @@ def build(model):
                 attr |= 0x04
             if trail:
                 attr |= 0x02
-            if seg['pad']:
+            if seg['pad'] or seg.get('padbit'):
                 attr |= 0x01
+            if seg.get('epk'):
+                attr |= 0x08       # has encryption packet (part of the encrypted body: nothing a reader can remove)
             pos = len(out)
             body = bytearray()
             body += ln.to_bytes(2, 'big') + bytes([attr, rec['type']])
@@ -307,7 +309,14 @@ def gen_segments(rng, total, maxlen, trail, enc, style):
                     n = (remaining - 12) & ~1
                 else:
                     return None
-            segs.append({'n': n, 'pad': 0, 'chk': chk, 'newvr': False})
+            seg = {'n': n, 'pad': 0, 'chk': chk, 'newvr': False}
+            # an encrypted segment may announce an encryption packet and pad bytes; both are inside the encrypted body, so
+            # they stay in the payload (the pad count cannot be read)
+            if rng.chance(0.5):
+                seg['epk'] = True
+            if rng.chance(0.3):
+                seg['padbit'] = True
+            segs.append(seg)
             remaining -= n
         return segs
     remaining = total
@@ -359,7 +368,12 @@ def gen_model(rng, max_records=40, max_payload=None, tier='quick'):
     pack = rng.wpick([(3, 'greedy'), (2, 'one'), (3, 'random')])
     for r in range(nrec):
         enc = rng.chance(0.1)
+        every = rng.chance(0.04)           # a record with every optional attribute switched on in every segment
+        if every:
+            enc = True
         style = rng.wpick([(3, 'one'), (3, 'few'), (3, 'many'), (2, 'tiny')])
+        if every:
+            style = rng.pick(['few', 'many', 'many', 'tiny'])
         cap = min(budget // max(1, nrec - r), 3 * maxlen + 50)
         size_kind = rng.wpick([(1, 'zero'), (3, 'small'), (3, 'segcap'), (3, 'big')])
         if size_kind == 'zero':
@@ -395,8 +409,14 @@ def gen_model(rng, max_records=40, max_payload=None, tier='quick'):
                 s['newvr'] = True
             elif pack == 'random':
                 s['newvr'] = rng.chance(0.4)
+        if every and enc:
+            for s in segs:
+                s['epk'] = s['padbit'] = True
+                if not s['chk'] and s['n'] >= 4:
+                    s['chk'] = True
+                    s['n'] -= 2
         budget -= sum(seg_length(s, trail) for s in segs)
-        records.append({'eflr': rng.chance(0.4), 'type': rng.wpick([(3, 0), (2, rng.randrange(0, 12)), (1, rng.randrange(0, 256))]),
+        records.append({'eflr': rng.chance(0.6 if every else 0.4), 'type': rng.wpick([(3, 0), (2, rng.randrange(0, 12)), (1, rng.randrange(0, 256))] if not every else [(1, rng.randrange(0, 6))]),
                         'enc': enc, 'key': rng.getrandbits(32), 'segs': segs})
         if budget < 200:
             break
